@@ -1,12 +1,15 @@
 import JunoModel.C18.ProofsRunner
+import JunoModel.C18.ProofsOpen
 import JunoModel.C18.ProofsBlockTx
 import JunoModel.C18.ProofsSDL
 import JunoModel.C18.ProofsHS
 import JunoModel.C18.ProofsPipe
 import JunoModel.C18.ProofsPruner
+import JunoModel.C18.ProofsCompose
 /-!
-C18 — property theorems (statements only; helper lemmas are in `ProofsSV`, `ProofsRunner`,
-`ProofsBlockTx`). Every theorem in this module is an obligation listed in evidence/C18.json.
+C18 — property theorems (statements only; helper lemmas are in `ProofsSV`, `ProofsRunner`, `ProofsOpen`
+(NewRunner's errors, read faults, histories), `ProofsBlockTx`, `ProofsSDL`, `ProofsHS`, `ProofsPipe`, `ProofsPruner`,
+`ProofsCompose` (runner × data model)). Every theorem in this module is an obligation listed in evidence/C18.json.
 
 THE MODEL IS THE CURRENT TREE (all recorded C18 defects are repaired in /repo: b4577f2, 69981ea,
 edddfcf, 197b4fe, 2d815bd, 322dd0d, 459a03c, dfe482d, 00e70b8, 1b3416d). The models still carry one
@@ -58,7 +61,7 @@ theorem applied_implies_complete (cfg : Cfg) (hfix : cfg.markOnNilCtx = false) (
 
 /-- One mandatory migration that blocks until cancellation (tick 3 = its `Migrate` call) and
 returns `(nil, wrapped ctx.Err())`. -/
-def l9Start : Start := ⟨[⟨false, false⟩], ⟨fun _ => ⟨false, none, .ctx⟩, 3, 999, 0⟩⟩
+def l9Start : Start := ⟨[⟨false, false⟩], ⟨fun _ => ⟨false, none, .ctx⟩, 3, 999, 0, false, fun _ => false⟩⟩
 def freshDisk : Disk := ⟨none, fun _ => none⟩
 
 /-- REGRESSION WITNESS for the defect fixed by 69981ea (the model's `markOnNilCtx = true` variant no
@@ -114,8 +117,16 @@ theorem in_order_when_state_only_on_cancel (cfg : Cfg) (d : Disk) (st : Start)
   · exact h
   · have := hwb i s e false h; cases this
 
+/-- ONCE, over whole histories: as soon as a migration is recorded as applied (after any prefix `pre` of
+the history) its `Migrate` is never called again — in no later start, whatever happens in between
+(`mid`: restarts with other registries, crashes, cancellations, failed writes and reads). -/
+theorem applied_migration_never_called_again (cfg : Cfg) (d : Disk) (pre mid : List Start) (st : Start) (j : Nat)
+    (h : (starts cfg d pre).1.cur.has j = true) (c : SV) :
+    Event.call j c ∉ (start cfg (starts cfg d (pre ++ mid)).1 st).2.1 :=
+  no_call_after_applied cfg d pre mid st j h c
+
 /-- Two mandatory migrations; the first returns `(state, nil)` with a live context. -/
-def inProgStart : Start := ⟨[⟨false, false⟩, ⟨false, false⟩], ⟨fun i => if i = 0 then ⟨false, some [], .none⟩ else ⟨false, none, .none⟩, 999, 999, 0⟩⟩
+def inProgStart : Start := ⟨[⟨false, false⟩, ⟨false, false⟩], ⟨fun i => if i = 0 then ⟨false, some [], .none⟩ else ⟨false, none, .none⟩, 999, 999, 0, false, fun _ => false⟩⟩
 
 /-- Without that hypothesis the order can be broken (this is the runner's documented contract,
 runner_test.go "Migration with intermediate state", not a defect of a registered migration):
@@ -155,10 +166,98 @@ theorem missing_applied_migration_refused (cfg : Cfg) (reg : Registry) (hr : reg
   refine ⟨hno, ?_⟩
   unfold start
   rw [hst]
-  cases h : newRunner cfg reg d with
-  | ok => exact absurd h hno
-  | optOut => rfl
-  | downgrade => rfl
+  by_cases hmr : st.env.metaReadFails = true
+  · simp [hmr]
+  · have hmr' : st.env.metaReadFails = false := by simpa using hmr
+    rw [hmr']
+    cases h : newRunner cfg reg d with
+    | ok => exact absurd h hno
+    | optOut => rfl
+    | downgrade => rfl
+
+/-- WHICH ERROR `NewRunner` returns (current tree; `validateNoOptOut` transcribed with its flag list and
+its `break`, then `validateNoVersionDowngrade`): it accepts exactly when the accept/refuse model
+does; the opt-out error names — in ascending order, never an empty list — exactly the migrations
+that were previously targeted, are not in this target and are registered in this binary; and
+`errNewerDatabase` is returned exactly when the database is refused although no migration of
+this binary was opted out of (what is missing is a migration this binary does not have). -/
+theorem open_error_names_exactly_the_opted_out_flags (reg : Registry) (d : Disk) :
+    (newRunnerV reg d = .ok ↔ newRunner Cfg.fixed reg d = .ok) ∧
+    (∀ l, newRunnerV reg d = .optOut l →
+      l ≠ [] ∧ l.Pairwise (· < ·) ∧
+      ∀ j, j ∈ l ↔ (j < reg.length ∧ d.last.has j = true ∧ reg.target.has j = false)) ∧
+    (newRunnerV reg d = .newer ↔
+      newRunner Cfg.fixed reg d ≠ .ok ∧ ∀ j, j < reg.length → d.last.has j = true → reg.target.has j = true) := by
+  have hok := newRunnerV_ok_iff reg d
+  refine ⟨hok, ?_, ?_⟩
+  · intro l hl
+    rw [newRunnerV_eq] at hl
+    split at hl
+    · cases hl
+    · split at hl
+      · cases hl
+      · rename_i hne
+        injection hl with hl
+        subst hl
+        exact ⟨hne, namedOptOuts_sorted _ _ _, fun j => mem_namedOptOuts _ _ _ j⟩
+  · have hnamed : namedOptOuts reg.target d.last reg.length = [] ↔
+        ∀ j, j < reg.length → d.last.has j = true → reg.target.has j = true := by
+      constructor
+      · intro h j h1 h2
+        cases h3 : reg.target.has j with
+        | true => rfl
+        | false =>
+          have := (mem_namedOptOuts reg.target d.last reg.length j).mpr ⟨h1, h2, h3⟩
+          rw [h] at this; cases this
+      · intro h
+        cases hn : namedOptOuts reg.target d.last reg.length with
+        | nil => rfl
+        | cons a r =>
+          have := (mem_namedOptOuts reg.target d.last reg.length a).mp (by rw [hn]; exact List.mem_cons_self)
+          rw [h a this.1 this.2.1] at this
+          cases this.2.2
+    have hne : newRunner Cfg.fixed reg d ≠ .ok ↔ newRunnerV reg d ≠ .ok := not_congr hok.symm
+    rw [hne, ← hnamed, newRunnerV_eq]
+    split
+    · simp
+    · split
+      · rename_i h; simp [h]
+      · rename_i h; simp [h]
+
+/-- The flags the opt-out error names are the right ones: with a configuration that keeps what was
+enabled and enables the named migrations, the opt-out error does not come back (the database is
+accepted, or — if it also records a migration this binary does not have — refused as newer). -/
+theorem enabling_named_flags_clears_optout (reg reg' : Registry) (d : Disk) (l : List Nat)
+    (h : newRunnerV reg d = .optOut l) (hlen : reg'.length = reg.length)
+    (hkeep : ∀ j, reg.target.has j = true → reg'.target.has j = true)
+    (hen : ∀ j ∈ l, reg'.target.has j = true) :
+    ∀ l', newRunnerV reg' d ≠ .optOut l' := by
+  intro l' h'
+  have h1 := (open_error_names_exactly_the_opted_out_flags reg d).2.1 l h
+  have h2 := (open_error_names_exactly_the_opted_out_flags reg' d).2.1 l' h'
+  cases l' with
+  | nil => exact h2.1 rfl
+  | cons a r =>
+    have ha := (h2.2.2 a).mp List.mem_cons_self
+    have hnt : reg.target.has a = false := by
+      cases h3 : reg.target.has a with
+      | false => rfl
+      | true => rw [hkeep a h3] at ha; cases ha.2.2
+    have hmem : a ∈ l := (h1.2.2 a).mpr ⟨hlen ▸ ha.1, ha.2.1, hnt⟩
+    rw [hen a hmem] at ha
+    cases ha.2.2
+
+/-- READ FAULTS (both variants; every registry, script, cancellation / death / failed-write tick). A
+start that cannot read the schema metadata (an error other than "not found") does nothing. A start that
+cannot read the stored resume token of migration `j` never calls `Before` or `Migrate` of `j`, saves
+nothing for it and does not apply it: token and applied bit of `j` are exactly what they were — an
+unreadable token is never taken for "no token". -/
+theorem read_error_is_not_progress (cfg : Cfg) (d : Disk) (st : Start) :
+    (st.env.metaReadFails = true → start cfg d st = (d, [], some .errRead)) ∧
+    (∀ j, st.env.istReadFails j = true →
+      (∀ e ∈ (start cfg d st).2.1, e.idx ≠ some j) ∧
+      (start cfg d st).1.ist j = d.ist j ∧ (start cfg d st).1.cur.has j = d.cur.has j) :=
+  start_readfail cfg d st
 
 /-! ## Resume: any interruption pattern followed by reruns reaches the result of an undisturbed run -/
 
@@ -329,6 +428,60 @@ theorem statedifflength_resume_same_result (db : SDL.Db) (h o next : Nat) (hr : 
       SDL.backfilled db o h :=
   SDL.resume_sdl hr hg steps
 
+/-! ## Runner × data migration: "recorded as applied" means the data is migrated -/
+
+/-- COMPOSITION, block-transactions (current code). Migration `i` of the registry IS the modelled
+block-transactions migration acting on `db` (everything else — the other migrations, cancellation,
+death, failed writes and read faults of the runner — stays an arbitrary script). For every history of
+starts, each with its own interruption pattern inside the migration: no block is lost, and whenever
+the runner's applied bit of `i` is set, every block up to the chain height reads through the current
+accessors with exactly its original content and no old entry is left. -/
+theorem applied_bit_means_blocktx_migrated (cfg : Cfg) (hfix : cfg.markOnNilCtx = false) (bcfg : BlockTx.Cfg)
+    (hA : bcfg.overwriteMigrated = false) (hB : bcfg.skipUnstoredEmpty = false) (orig : Orig) (h : Nat)
+    (hw : WFOrig orig) (i : Nat) (d : Disk) (db : Db) (hi : Inv orig h db) (hbit : d.cur.has i = false)
+    (l : List (Start × List Step)) :
+    Inv orig h (cstarts (btMig bcfg) cfg i d db l).2 ∧
+    ((cstarts (btMig bcfg) cfg i d db l).1.cur.has i = true → ∀ b, b ≤ h →
+      view ((cstarts (btMig bcfg) cfg i d db l).2.blk b) = some (orig b) ∧
+      oldView ((cstarts (btMig bcfg) cfg i d db l).2.blk b) = ([], [])) := by
+  have hc := cstarts_sound (btMig_sound bcfg hA hB orig h hw) cfg hfix i l d db
+    ⟨hi, fun hb => by rw [hbit] at hb; cases hb⟩
+  refine ⟨hc.1, fun hb b hbh => ?_⟩
+  have hm := (hc.2 hb).2 b hbh
+  exact ⟨hm.2.2.2, by simp [oldView, hm.2.1, hm.2.2.1]⟩
+
+/-- COMPOSITION, state-diff-length: the checkpoint travels as the 8-byte token the runner stores
+(`encodeResume` / `Before`). For every history of starts: the stored token always decodes, every retained
+block below the decoded checkpoint is backfilled, and whenever the applied bit is set every
+retained block carries its state-diff length. -/
+theorem applied_bit_means_statedifflength_backfilled (cfg : Cfg) (hfix : cfg.markOnNilCtx = false)
+    (i : Nat) (d : Disk) (db : SDL.Db) (h o : Nat) (hr : SDL.Retained db h o) (hh : h + 1 < 2 ^ 64)
+    (htok : d.ist i = none) (hbit : d.cur.has i = false) (l : List (Start × SDL.Step)) :
+    (∃ n, SDL.before ((cstarts sdlMig cfg i d db l).1.ist i) = some n ∧ SDL.Good (cstarts sdlMig cfg i d db l).2 o n) ∧
+    ((cstarts sdlMig cfg i d db l).1.cur.has i = true → SDL.Good (cstarts sdlMig cfg i d db l).2 o (h + 1)) := by
+  have hc := cstarts_sound (SDL.sdlMig_sound h o) cfg hfix i l d db
+    ⟨⟨hr, hh, 0, by rw [htok]; rfl, fun b _ hb => by omega⟩, fun hb => by rw [hbit] at hb; cases hb⟩
+  exact ⟨hc.1.2.2, hc.2⟩
+
+/-- COMPOSITION, head-state: whenever the applied bit is set every account has its consolidated
+record and the deprecated buckets are empty; before that no account has lost a field. -/
+theorem applied_bit_means_headstate_consolidated (cfg : Cfg) (hfix : cfg.markOnNilCtx = false)
+    (i : Nat) (d : Disk) (orig : Nat → HS.OrigA) (db : HS.Db) (hi : HS.Inv orig db) (hbit : d.cur.has i = false)
+    (l : List (Start × HS.Step)) :
+    HS.Inv orig (cstarts hsMig cfg i d db l).2 ∧
+    ((cstarts hsMig cfg i d db l).1.cur.has i = true → HS.Done orig (cstarts hsMig cfg i d db l).2) := by
+  have hc := cstarts_sound (hsMig_sound orig db.n) cfg hfix i l d db
+    ⟨⟨hi, rfl⟩, fun hb => by rw [hbit] at hb; cases hb⟩
+  exact ⟨hc.1.1, fun hb => (hc.2 hb).1⟩
+
+/-- The checkpoint codec of statedifflength: `Before(encodeResume n)` restores `n` for every `uint64`;
+no token and the empty token mean block 0; any other length is rejected. -/
+theorem statedifflength_token_codec (n : Nat) (hn : n < 2 ^ 64) (b : Bytes) :
+    SDL.before (some (SDL.encodeResume n)) = some n ∧ SDL.before none = some 0 ∧ SDL.before (some []) = some 0 ∧
+    (b.length ≠ 0 → b.length ≠ 8 → SDL.before (some b) = none) := by
+  refine ⟨SDL.before_encodeResume n hn, rfl, rfl, fun h0 h8 => ?_⟩
+  simp [SDL.before, h0, h8]
+
 /-! ## The history pruner's cutoff -/
 
 /-- FULL STRENGTH (both guards: cutoff 0 ⇒ nothing to prune — applied in /repo by 322dd0d; cutoff never
@@ -446,10 +599,32 @@ example : view ((migrate BlockTx.Cfg.fixed leadingEmptyDb []).1.blk 0) = some ([
 example : ((attempts BlockTx.Cfg.fixed leadingEmptyDb [[.crash none [true]]]).blk 10).blob = some ([1], [101]) ∧
     ((attempts BlockTx.Cfg.fixed leadingEmptyDb [[.crash none [true]]]).blk 0).blob = none := by decide
 -- an undisturbed environment exists, and the repaired runner refuses the unknown-last witness
-example : Env.Undisturbed ⟨fun _ => ⟨false, none, .none⟩, 999, 999, 0⟩ := ⟨fun _ => rfl, by decide, by decide, rfl⟩
+example : Env.Undisturbed ⟨fun _ => ⟨false, none, .none⟩, 999, 999, 0, false, fun _ => false⟩ := ⟨fun _ => rfl, by decide, by decide, rfl, fun _ => rfl⟩
 example : newRunner Cfg.fixed [⟨false, false⟩, ⟨false, false⟩] ⟨some ⟨3#64, 7#64⟩, fun _ => none⟩ ≠ .ok := by decide
 -- the repaired runner does not mark the L9 witness as applied
 example : (starts Cfg.fixed freshDisk [l9Start]).1.cur.has 0 = false := by decide
+-- the three verdicts of `NewRunner` occur: registry m,e?,m with bit 1 previously targeted and now disabled;
+-- a bit beyond the registry; and both (the known one is named, the loop stops at the unknown one)
+example : newRunnerV [⟨false, false⟩, ⟨true, false⟩, ⟨false, false⟩] ⟨some ⟨5#64, 7#64⟩, fun _ => none⟩ = .optOut [1] := by decide
+example : newRunnerV [⟨false, false⟩, ⟨true, true⟩] ⟨some ⟨3#64, 7#64⟩, fun _ => none⟩ = .newer := by decide
+example : newRunnerV [⟨false, false⟩, ⟨true, false⟩] ⟨some ⟨1#64, 7#64⟩, fun _ => none⟩ = .optOut [1] := by decide
+example : newRunnerV [⟨false, false⟩, ⟨true, true⟩, ⟨false, false⟩] ⟨some ⟨5#64, 7#64⟩, fun _ => none⟩ = .ok := by decide
+-- a start whose token read fails leaves the stored token where it is and reports an error
+example : (start Cfg.fixed ⟨none, fun j => if j = 0 then some [1] else none⟩
+    ⟨[⟨false, false⟩], ⟨fun _ => ⟨false, none, .none⟩, 999, 999, 0, false, fun _ => true⟩⟩).1.ist 0 = some [1] := by decide
+example : (start Cfg.fixed ⟨none, fun _ => none⟩
+    ⟨[⟨false, false⟩], ⟨fun _ => ⟨false, none, .none⟩, 999, 999, 0, false, fun _ => true⟩⟩).2.2 = some .errRead := by decide
+-- composition: one start in which the state-diff-length migration (registry index 0) is cancelled after one
+-- block: the runner stores the 8-byte checkpoint 3; a second, undisturbed start completes and sets the bit
+example : (cstart sdlMig Cfg.fixed 0 freshDisk sdlDb ⟨[⟨false, false⟩], ⟨fun _ => ⟨false, none, .none⟩, 2, 999, 0, false, fun _ => false⟩⟩
+    (.pass (some 1))).1.ist 0 = some [0, 0, 0, 0, 0, 0, 0, 3] := by decide
+example : (cstarts sdlMig Cfg.fixed 0 freshDisk sdlDb
+    [(⟨[⟨false, false⟩], ⟨fun _ => ⟨false, none, .none⟩, 2, 999, 0, false, fun _ => false⟩⟩, .pass (some 1)),
+     (⟨[⟨false, false⟩], ⟨fun _ => ⟨false, none, .none⟩, 999, 999, 0, false, fun _ => false⟩⟩, .pass none)]).1.cur.has 0 = true := by decide
+example : SDL.before (some [1, 2, 3]) = none := by decide
+-- a migration applied in the first start is not called in the second (and is called in the first)
+example : Event.call 0 (0#64) ∈ (start Cfg.fixed freshDisk ⟨[⟨false, false⟩], ⟨fun _ => ⟨false, none, .none⟩, 999, 999, 0, false, fun _ => false⟩⟩).2.1 ∧
+    (starts Cfg.fixed freshDisk [⟨[⟨false, false⟩], ⟨fun _ => ⟨false, none, .none⟩, 999, 999, 0, false, fun _ => false⟩⟩]).1.cur.has 0 = true := by decide
 example : freshDisk.Clean := fun j h => by
   have : freshDisk.cur = 0#64 := rfl
   rw [this, SV.has_zero] at h; cases h
